@@ -18,8 +18,9 @@ PROBE = "UDJUDDJUJDUUJDJDUJUDJJDU"
 
 
 def lookback(cfg):
-    """Generous look-back in candles: warm-up length measured on an untrimmed probe run, and every integer parameter, + 1
-    (a purely recursive indicator without parameters, e.g. OBV, gets exactly the one predecessor the property names)."""
+    """Look-back in candles (number of retained predecessors a newly computed candle must have): the warm-up length measured
+    on an untrimmed probe run and every integer parameter, at least the one predecessor the property names for purely
+    recursive indicators (OBV, VWAP). No further slack: a window that holds exactly period + 1 candles is inside the clause."""
     ind = make(cfg, candles=fresh(raw_stream(PROBE)))
     ind.calculate()
     first = len(PROBE)
@@ -29,7 +30,7 @@ def lookback(cfg):
             first = i
             break
     params = [v for v in cfg["kw"].values() if isinstance(v, int) and not isinstance(v, bool)]
-    return max([first] + params) + 1
+    return max([first] + params + [1])
 
 
 PRE = ["UDJUDJDUJDUJ", "JUDDJUUDJJDU", "DJUJDUJUDUDJ"]
